@@ -276,7 +276,7 @@ void *c02_thread(void *arg) {
 }
 
 // ---- C03 -------------------------------------------------------------------------------------------
-struct C03Prog { string shape; int cap = 1, prod = 1, items = 2, cons = 1, waiters = 2; char ne = 's', nf = 's', gate = 'b'; int out = 0, phases = 1; /* gate: phases=2 repeats the gate with the SAME condition variable and a second mutex once nobody waits any more */ /* 1: wake-ups are issued after the mutex was released */ };
+struct C03Prog { string shape; int cap = 1, prod = 1, items = 2, cons = 1, waiters = 2; char ne = 's', nf = 's', gate = 'b'; int out = 0, phases = 1, try_first = 0; /* gate: phases=2 repeats the gate with the SAME condition variable and a second mutex once nobody waits any more */ /* 1: wake-ups are issued after the mutex was released */ };
 bool parse_c03(const string &p, C03Prog &g) {
   auto w = vl::split_ws(p);
   if (w.empty()) return false;
@@ -286,7 +286,7 @@ bool parse_c03(const string &p, C03Prog &g) {
     string k = w[i].substr(0, e), v = w[i].substr(e + 1);
     if (k == "cap") g.cap = atoi(v.c_str()); else if (k == "prod") g.prod = atoi(v.c_str()); else if (k == "items") g.items = atoi(v.c_str());
     else if (k == "cons") g.cons = atoi(v.c_str()); else if (k == "waiters") g.waiters = atoi(v.c_str());
-    else if (k == "ne") g.ne = v[0]; else if (k == "nf") g.nf = v[0]; else if (k == "gate") g.gate = v[0]; else if (k == "out") g.out = atoi(v.c_str()); else if (k == "phases") g.phases = atoi(v.c_str());
+    else if (k == "ne") g.ne = v[0]; else if (k == "nf") g.nf = v[0]; else if (k == "gate") g.gate = v[0]; else if (k == "out") g.out = atoi(v.c_str()); else if (k == "phases") g.phases = atoi(v.c_str()); else if (k == "try") g.try_first = atoi(v.c_str());
   }
   return true;
 }
@@ -296,9 +296,20 @@ struct C03State {
   vector<int> queue; vector<int> consumed; int produced_total = 0; int to_consume = 0;
   bool gate_open = false; int passed = 0;
   int holder = -1; // shadow: who is inside the mutex-protected section
+  long try_true = 0, try_false = 0;
 };
 C03State *g3 = nullptr;
-void c03_lock() { if (!API("p_mutex_lock", p_mutex_lock(g3->m))) child_fail("lock-failed", "p_mutex_lock failed"); if (g3->holder != -1) child_fail("wait-reacquire", "two threads are inside the mutex-protected section (wait returned without the mutex?)"); g3->holder = vs::self->id; }
+void c03_lock() {
+  // try=1 programs: wakers and producers first ask with p_mutex_trylock.  While every other thread is parked in p_cond_variable_wait (or
+  // outside its section) the mutex is free - the wait "releases the given mutex" - so the trylock has to succeed
+  if (g3->p.try_first) {
+    if (API("p_mutex_trylock", p_mutex_trylock(g3->m))) { if (g3->holder != -1) child_fail("wait-reacquire", "p_mutex_trylock returned TRUE while another thread is inside the mutex-protected section"); g3->holder = vs::self->id; g3->try_true++; return; }
+    // exact: the modelled native mutex (first field of PMutex) is free at the moment the call returns - nothing can run between the
+    // native trylock and this line - so nobody held it when the library answered "taken"
+    { auto it = vs::S().mutexes.find((pthread_mutex_t *)g3->m); if (it != vs::S().mutexes.end() && it->second.owner == -1) child_fail("wait-release", "p_mutex_trylock returned FALSE although the mutex is free: a thread blocked in p_cond_variable_wait has to have released the mutex it was given"); }
+    g3->try_false++;
+  }
+  if (!API("p_mutex_lock", p_mutex_lock(g3->m))) child_fail("lock-failed", "p_mutex_lock failed"); if (g3->holder != -1) child_fail("wait-reacquire", "two threads are inside the mutex-protected section (wait returned without the mutex?)"); g3->holder = vs::self->id; }
 void c03_unlock() { g3->holder = -1; if (!API("p_mutex_unlock", p_mutex_unlock(g3->m))) child_fail("unlock-failed", "p_mutex_unlock failed"); }
 void c03_wait(PCondVariable *cv) {
   g3->holder = -1;
@@ -650,7 +661,7 @@ void run_child(const Case &c) {
       if (g.passed != g.p.waiters) child_fail("exchange", "not every waiter passed the gate");
     }
     nontrivial = vs::S().max_cond_waiters >= 2 && vs::S().signals_with_waiters >= 1;
-    dprintf(g_out, "STAT cond_waits %ld\nSTAT max_cond_waiters %ld\nSTAT wakeups_with_waiters %ld\n", vs::S().cond_waits, vs::S().max_cond_waiters, vs::S().signals_with_waiters);
+    dprintf(g_out, "STAT cond_waits %ld\nSTAT max_cond_waiters %ld\nSTAT wakeups_with_waiters %ld\nSTAT try_true %ld\nSTAT try_false %ld\n", vs::S().cond_waits, vs::S().max_cond_waiters, vs::S().signals_with_waiters, g.try_true, g.try_false);
   } else if (c.prop == "C04") {
     C04State g; g4 = &g;
     long init = 0;
@@ -837,9 +848,9 @@ rc::Gen<Case> genC03() {
   auto bb = gen::map(gen::tuple(rng(1, 4), rng(1, 4), rng(1, 4), rng(1, 4), gen::element('s', 'b'), gen::element('s', 'b'), rng(0, 2)), [](const std::tuple<int, int, int, int, char, char, int> &t) {
     std::ostringstream os; int cons = std::get<3>(t);
     // signal (rather than broadcast) is only correct here when a single kind of waiter sits on each condition variable - true for this program
-    os << "bb cap=" << std::get<0>(t) << " prod=" << std::get<1>(t) << " items=" << std::get<2>(t) << " cons=" << cons << " ne=" << std::get<4>(t) << " nf=" << std::get<5>(t) << " out=" << std::get<6>(t);
+    os << "bb cap=" << std::get<0>(t) << " prod=" << std::get<1>(t) << " items=" << std::get<2>(t) << " cons=" << cons << " ne=" << std::get<4>(t) << " nf=" << std::get<5>(t) << " out=" << std::get<6>(t) << " try=" << ((std::get<0>(t) + std::get<1>(t) + std::get<2>(t)) % 3 == 0 ? 1 : 0);
     return os.str(); });
-  auto gate = gen::map(gen::tuple(rng(2, 5), gen::element('b', 's'), rng(0, 2), rng(1, 4)), [](const std::tuple<int, char, int, int> &t) { std::ostringstream os; os << "gate waiters=" << std::get<0>(t) << " gate=" << std::get<1>(t) << " out=" << std::get<2>(t) << " phases=" << std::get<3>(t); return os.str(); });
+  auto gate = gen::map(gen::tuple(rng(2, 5), gen::element('b', 's'), rng(0, 2), rng(1, 4)), [](const std::tuple<int, char, int, int> &t) { std::ostringstream os; os << "gate waiters=" << std::get<0>(t) << " gate=" << std::get<1>(t) << " out=" << std::get<2>(t) << " phases=" << std::get<3>(t) << " try=" << ((std::get<0>(t) + std::get<3>(t)) % 2); return os.str(); });
   return gen::map(gen::tuple(gen::oneOf(bb, gate), genScheduleLong(), rng(0, 3), rng(0, 4)), [](const std::tuple<string, vector<uint8_t>, int, int> &x) {
     Case c; c.prop = "C03"; c.prog = std::get<0>(x); c.sched = std::get<1>(x); c.spurious = std::get<2>(x) != 0; c.budget = std::get<3>(x); return c; });
 }
@@ -936,7 +947,7 @@ vector<Case> shapes_for(const string &prop) {
     v.push_back(shape("dsched C02\nobj w\nT X0.1.- R0.1.-\nT x0.1.-\nT r0.1.-\n"));
     v.push_back(shape("dsched C02\nopt spurious=1 budget=2\nobj w\nT x0.1.-\nT r0.1.-\nT x0.1.-\n"));
   } else if (prop == "C03") {
-    for (const char *p : {"bb cap=1 prod=1 items=2 cons=1 ne=s nf=s", "bb cap=1 prod=2 items=1 cons=2 ne=s nf=s", "bb cap=2 prod=1 items=3 cons=2 ne=b nf=s", "bb cap=1 prod=2 items=1 cons=2 ne=b nf=b out=1", "bb cap=2 prod=2 items=2 cons=2 ne=s nf=s out=1", "gate waiters=2 gate=b", "gate waiters=3 gate=b out=1", "gate waiters=2 gate=s phases=2"}) {
+    for (const char *p : {"bb cap=1 prod=1 items=2 cons=1 ne=s nf=s", "bb cap=1 prod=2 items=1 cons=2 ne=s nf=s", "bb cap=2 prod=1 items=3 cons=2 ne=b nf=s", "bb cap=1 prod=2 items=1 cons=2 ne=b nf=b out=1", "bb cap=2 prod=2 items=2 cons=2 ne=s nf=s out=1", "gate waiters=2 gate=b", "gate waiters=3 gate=b out=1", "gate waiters=2 gate=s phases=2", "gate waiters=2 gate=b try=1"}) {
       Case c; c.prop = "C03"; c.prog = p; v.push_back(c);
       Case d = c; d.spurious = true; d.budget = 2; v.push_back(d);
     }
